@@ -406,6 +406,8 @@ def _o5_files(d0, sbacc):
                   "integer :: va", "integer, public :: vb", "integer, private :: vc", "integer, protected :: vd",
                   "type ta", "integer :: c", "end type ta", "type, private :: tb", "integer :: c", "end type tb",
                   "type, public :: tc", "integer :: c", "end type tc",
+                  "type, private, extends(ta) :: td", "integer :: d", "end type td", "type, extends(ta), public :: te", "integer :: e", "end type te",
+                  "type, abstract, private :: tf", "integer :: f", "end type tf",
                   "interface", "module subroutine ms()", "end subroutine ms", "end interface",
                   "contains", "subroutine sa()", "end subroutine sa", "subroutine sb()", "end subroutine sb",
                   "end module shapes_m"],
@@ -419,11 +421,11 @@ def _o5_files(d0, sbacc):
 def o5_expected(default, sbacc, display):
     """names that stay listed per container list (F2008 5.3.2: explicit attribute/statement, else the module default; nothing
     declared in a submodule is accessible from outside: private)"""
-    acc = {"va": default, "vb": "public", "vc": "private", "vd": "protected", "ta": default, "tb": "private", "tc": "public",
+    acc = {"va": default, "vb": "public", "vc": "private", "vd": "protected", "ta": default, "tb": "private", "tc": "public", "td": "private", "te": "public", "tf": "private",
            "sa": default, "sb": sbacc or default}
     keep = lambda names: sorted(n for n in names if acc[n] in display)
     sub = lambda names: sorted(names) if "private" in display else []
-    return {"module.variables": keep(["va", "vb", "vc", "vd"]), "module.types": keep(["ta", "tb", "tc"]),
+    return {"module.variables": keep(["va", "vb", "vc", "vd"]), "module.types": keep(["ta", "tb", "tc", "td", "te", "tf"]),
             "module.subroutines": keep(["sa", "sb"]),
             "submodule.variables": sub(["cached", "kk"]), "submodule.types": sub(["tsub"]), "submodule.subroutines": sub(["helper"])}
 
